@@ -517,7 +517,7 @@ func c33Alloc() *explore.Scenario {
 }
 
 func c33Scenarios(thorough bool) []*explore.Scenario {
-	return []*explore.Scenario{c33Mutations(thorough), c33Raw(), c33Alloc(), c33Renegotiation(), c33PoisonedCache(thorough)}
+	return []*explore.Scenario{c33Mutations(thorough), c33Raw(), c33Alloc(), c33Renegotiation(), c33PoisonedCache(thorough), c33CookieSweep()}
 }
 
 func init() {
